@@ -220,12 +220,13 @@ Proof. intros N1 N2 H. apply Permutation_length. now apply NoDup_Permutation. Qe
 (* months = number of distinct '%Y-%m' among the payments (1 when there are none) *)
 Theorem months_spec (c : ctx) (ks : list Z) :
   NoDup ks -> (forall k, In k ks <-> has_key_p month_key (c_txns c) k) ->
-  get_months c = VNum (inject_Z (Z.of_nat (match length ks with O => 1 | n => n end))) true.
+  get_months c = VNum (inject_Z (Z.of_nat (Nat.max 1 (length ks)))) true.
 Proof.
   intros ND H. unfold get_months.
   rewrite <- (map_length fst (group_by month_key (fun _ => tt) (c_txns c))).
-  rewrite (same_card _ ks (group_by_nodup _ _ _) ND); [reflexivity|].
-  intros k. rewrite group_by_keys. symmetry. apply H.
+  rewrite (same_card _ ks (group_by_nodup _ _ _) ND).
+  - destruct (length ks); reflexivity.
+  - intros k. rewrite group_by_keys. symmetry. apply H.
 Qed.
 
 (* total = the sum of the payments, in whatever order *)
@@ -316,6 +317,20 @@ Proof. unfold qeq, Qeq. apply Z.eqb_eq. Qed.
 Lemma qsq_compat a b : a == b -> qsq a == qsq b.
 Proof. intros E. unfold qsq. now rewrite E. Qed.
 
+Lemma qle_iff x y : qle x y = true <-> x <= y.
+Proof. unfold qle, Qle. apply Z.leb_le. Qed.
+Lemma qlt_iff x y : qlt x y = true <-> x < y.
+Proof. unfold qlt, Qlt. apply Z.ltb_lt. Qed.
+Lemma qmax_ge1 z : 1 <= qmax 1 z.
+Proof. unfold qmax. destruct (qlt 1 z) eqn:E; [apply qlt_iff in E; now apply Qlt_le_weak|apply Qle_refl]. Qed.
+Lemma near_zero a : a == 0 -> near a 0 = true.
+Proof.
+  intros H. unfold near. apply qle_iff.
+  assert (E : Qabs (a - 0) == 0) by (rewrite H; reflexivity).
+  rewrite E. apply Qmult_le_0_compat; [unfold eps, Qle; simpl; lia|].
+  eapply Qle_trans; [|apply qmax_ge1]. unfold Qle; simpl; lia.
+Qed.
+
 Theorem cv_spec (c : ctx) (v : value) :
   get_cv c = Val v ->
   let txns := c_txns c in
@@ -344,25 +359,28 @@ Proof.
     destruct (es && qeq s 0)%bool eqn:Z0.
     + inversion H; subst. apply andb_true_iff in Z0. destruct Z0 as [_ Z0]. apply qeq_true in Z0.
       split; [reflexivity|]. intros _ NM. exfalso. apply NM. rewrite <- AVG, Z0. field. exact NZ.
-    + destruct (near (s / nq) 0); [discriminate|].
+    + destruct (near (s / nq) 0) eqn:NEAR; [discriminate|].
       set (ss := fold_left (fun a x => a + qsq (fst x - s / nq)) (monthly_totals txns) 0) in *.
       assert (SS : ss / nq == var).
-      { unfold ss. rewrite fold_add_map. unfold var, popvar_of. fold ks. fold mean. rewrite NQ.
-        rewrite (monthly_sum txns (fun x => qsq (x - s / nq))) by (intros a b E; now rewrite E). fold ks.
-        rewrite (sumQ_map_ext (fun k => qsq (month_total txns k - s / nq)) (fun k => qsq (month_total txns k - mean)) ks).
-        - field. rewrite <- NQ. exact NZ.
-        - intros k _. apply qsq_compat. now rewrite AVG. }
+      { unfold ss. rewrite fold_add_map. unfold var, popvar_of. fold ks. fold mean.
+        assert (E : sumQ (map (fun x => qsq (fst x - s / nq)) (monthly_totals txns))
+                    == sumQ (map (fun k => qsq (month_total txns k - s / nq)) ks)).
+        { apply (monthly_sum txns (fun x => qsq (x - s / nq))). intros a b Eab. unfold qsq. now rewrite Eab. }
+        assert (E2 : sumQ (map (fun k => qsq (month_total txns k - s / nq)) ks)
+                     == sumQ (map (fun k => qsq (month_total txns k - mean)) ks)).
+        { apply sumQ_map_ext. intros k _. apply qsq_compat. now rewrite AVG. }
+        rewrite E, E2, NQ. field. rewrite <- NQ. exact NZ. }
       destruct (es && forallb snd (monthly_totals txns) && qeq (ss / nq) 0)%bool eqn:V0.
       * inversion H; subst. apply andb_true_iff in V0. destruct V0 as [_ V0]. apply qeq_true in V0.
         split; [intros _ M; reflexivity|]. intros _ _. left. split; [reflexivity|]. now rewrite <- SS.
       * inversion H; subst. split.
         -- intros _ M. exfalso.
            (* mean == 0 but the model did not take the zero branch: then near (s/nq) 0 would hold *)
-           assert (X : near (s / nq) 0 = true).
-           { unfold near, qle. rewrite AVG, M. reflexivity. }
-           revert X. clear. intros X. destruct (near (s / nq) 0) eqn:E in *; discriminate.
-        -- intros _ _. right. eexists. split; [f_equal; apply qlt_compat; exact AVG|].
-           rewrite Qred_correct. rewrite SS. unfold qsq. rewrite AVG. reflexivity.
+           assert (X : near (s / nq) 0 = true) by (apply near_zero; now rewrite AVG).
+           congruence.
+        -- intros _ _. right. exists (Qred (ss / nq / qsq (s / nq))). split.
+           ++ f_equal. apply qlt_compat. exact AVG.
+           ++ rewrite Qred_correct, SS. unfold qsq. rewrite AVG. reflexivity.
 Qed.
 
 (* ---- what classify_by_sections' date rebuilding preserves ---------------------------------- *)
@@ -412,3 +430,84 @@ Qed.
 Lemma lookup_lowercase_var (vars : env) (c : ctx) (n : string) (v : value) :
   lower n = n -> alookup n vars = Some v -> eval vars c (EName n) = Val v.
 Proof. intros L H. simpl. unfold lookup_name. rewrite L, H. reflexivity. Qed.
+
+(* ---- nothing escapes the modelled evaluator (ExpressionEvaluator.evaluate wraps every Exception) ---- *)
+Lemma evaluate_no_crash vars c e : evaluate vars c e <> Crash.
+Proof. unfold evaluate, wrap. destruct (eval vars c e); discriminate. Qed.
+
+Lemma num_cmp_no_crash a b : num_cmp a b <> Crash.
+Proof.
+  unfold num_cmp. destruct a, b;
+    repeat match goal with |- context [if ?b then _ else _] => destruct b end; discriminate.
+Qed.
+
+Lemma truthy_no_crash v : truthy v <> Crash.
+Proof.
+  destruct v; simpl; try discriminate; unfold is_zero_num, bind;
+    match goal with |- context [num_cmp ?a ?b] => pose proof (num_cmp_no_crash a b); destruct (num_cmp a b) end;
+    congruence.
+Qed.
+
+Lemma eval_vars_no_crash ds c : forall start, eval_vars ds c start <> Crash.
+Proof.
+  unfold eval_vars. intros start.
+  assert (H : forall acc : res env, acc <> Crash ->
+            fold_left (fun acc ne => vars <- acc ;;
+                                     match evaluate vars c (snd ne) with
+                                     | Val v => Val (dset vars (fst ne) v)
+                                     | ExprErr => Val (dset vars (fst ne) VNone)
+                                     | Crash => Crash
+                                     | Unmod r => Unmod r
+                                     end) ds acc <> Crash).
+  { induction ds as [|d ds IH]; intros acc Ha; simpl; [exact Ha|]. apply IH.
+    destruct acc as [vars| | |r]; simpl; try discriminate; [|congruence].
+    pose proof (evaluate_no_crash vars c (snd d)). destruct (evaluate vars c (snd d)); congruence. }
+  apply H. discriminate.
+Qed.
+
+Lemma eval_filter_no_crash v c g : eval_filter v c g <> Crash.
+Proof.
+  unfold eval_filter, bind. pose proof (eval_vars_no_crash (norm_defs (v_vars v)) c g).
+  destruct (eval_vars _ c g) as [vars| | |r]; try congruence.
+  pose proof (evaluate_no_crash vars c (v_filter v)). destruct (evaluate vars c (v_filter v)); try congruence.
+  apply truthy_no_crash.
+Qed.
+
+Section NoAbort.
+  Variable cfg : config.
+  Variable ms : list merchant.
+  Variable fbg : merchant -> bool.
+  Variable fb : view -> merchant -> outcome.
+  Hypothesis fbg_ok : forall m, fbg m = true.
+  Hypothesis fb_ok : forall v m, fb v m <> OCrash.
+
+  Lemma model_globals_always_ok m : model_globals_ok cfg ms fbg m = true.
+  Proof.
+    unfold model_globals_ok, globals_of. pose proof (eval_vars_no_crash (norm_defs (g_vars cfg)) (mctx ms m) []).
+    destruct (eval_vars _ _ _); try reflexivity; [congruence|apply fbg_ok].
+  Qed.
+
+  Lemma model_filter_never_crashes v m : model_filter_true cfg ms fb v m <> OCrash.
+  Proof.
+    unfold model_filter_true, model_outcome, bind, globals_of.
+    pose proof (eval_vars_no_crash (norm_defs (g_vars cfg)) (mctx ms m) []) as H0.
+    destruct (eval_vars (norm_defs (g_vars cfg)) (mctx ms m) []) as [g| | |r].
+    - pose proof (eval_filter_no_crash v (mctx ms m) g) as H1.
+      destruct (eval_filter v (mctx ms m) g) as [[|]| | |r].
+      + discriminate.
+      + discriminate.
+      + discriminate.
+      + congruence.
+      + apply fb_ok.
+    - discriminate.
+    - congruence.
+    - apply fb_ok.
+  Qed.
+
+  Theorem model_run_never_aborts : exists r, classify_by_sections cfg ms fbg fb = Some r.
+  Proof.
+    unfold classify_by_sections. apply run_completes.
+    - intros m _ _. apply model_globals_always_ok.
+    - intros m v _ _ _. apply model_filter_never_crashes.
+  Qed.
+End NoAbort.
